@@ -83,6 +83,86 @@ def extract(tree):
     gr = norm(csrc.func_body(gc, "janet_gcroot"))
     if "janet_vm.roots[janet_vm.root_count]=root;janet_vm.root_count=newcount;" not in gr:
         raise ExtractError("janet_gcroot: push not recognised")
+    # ---- root-set protocol (session 3): janet_gcroot growth, janet_gc_idequals, janet_gcunroot, janet_gcunrootall
+    m = re.fullmatch(r"\{size_tnewcount=janet_vm\.root_count\+1;if\(newcount>janet_vm\.root_capacity\)\{size_tnewcap=(\d+)\*newcount;"
+                     r"janet_vm\.roots=janet_realloc\(janet_vm\.roots,sizeof\(Janet\)\*newcap\);if\(NULL==janet_vm\.roots\)\{JANET_OUT_OF_MEMORY;\}"
+                     r"janet_vm\.root_capacity=newcap;\}janet_vm\.roots\[janet_vm\.root_count\]=root;janet_vm\.root_count=newcount;\}", gr)
+    if not m:
+        raise ExtractError("janet_gcroot: grow-then-push shape not recognised")
+    info["rootGrowMul"] = int(m.group(1))
+    jtypes = csrc.enum_values(jh, "JANET_NUMBER")
+    if len(jtypes) != 16:
+        raise ExtractError("JanetType: expected 16 members, found %d" % len(jtypes))
+    info["jtypes"] = jtypes
+    ie = norm(csrc.func_body(gc, "janet_gc_idequals"))
+    m = re.fullmatch(r"\{if\(janet_type\(lhs\)!=janet_type\(rhs\)\)return0;switch\(janet_type\(lhs\)\)\{((?:case\w+:)+)return1;"
+                     r"default:returnjanet_unwrap_pointer\(lhs\)==janet_unwrap_pointer\(rhs\);\}\}", ie)
+    if not m:
+        raise ExtractError("janet_gc_idequals: shape not recognised")
+    info["idequalsAlways"] = sorted(jtypes[c] for c in re.findall(r"case(\w+):", m.group(1)))
+    ur = norm(csrc.func_body(gc, "janet_gcunroot"))
+    if ur != ("{Janet*vtop=janet_vm.roots+janet_vm.root_count;for(Janet*v=janet_vm.roots;v<vtop;v++){if(janet_gc_idequals(root,*v)){"
+              "*v=janet_vm.roots[--janet_vm.root_count];return1;}}return0;}"):
+        raise ExtractError("janet_gcunroot: ascending scan / swap-with-last / return shape not recognised")
+    ua = norm(csrc.func_body(gc, "janet_gcunrootall"))
+    head = "{Janet*vtop=janet_vm.roots+janet_vm.root_count;intret=0;"
+    swap = "if(janet_gc_idequals(root,*v)){*v=janet_vm.roots[--janet_vm.root_count];vtop--;ret=1;}"
+    if ua == head + "for(Janet*v=janet_vm.roots;v<vtop;v++){" + swap + "}returnret;}":
+        info["unrootallRescans"] = False      # the value swapped into the slot is skipped by v++
+    elif ua in (head + "Janet*v=janet_vm.roots;while(v<vtop){" + swap + "else{v++;}}returnret;}",
+                head + "for(Janet*v=janet_vm.roots;v<vtop;){" + swap + "else{v++;}}returnret;}"):
+        info["unrootallRescans"] = True
+    else:
+        raise ExtractError("janet_gcunrootall: loop shape not recognised")
+    # ---- suspension and the collection decision
+    if norm(csrc.func_body(gc, "janet_gclock")) != "{returnjanet_vm.gc_suspend++;}":
+        raise ExtractError("janet_gclock: shape not recognised")
+    if norm(csrc.func_body(gc, "janet_gcunlock")) != "{janet_vm.gc_suspend=handle;}":
+        raise ExtractError("janet_gcunlock: shape not recognised")
+    if norm(csrc.func_body(gc, "janet_gcpressure")) != "{janet_vm.next_collection+=s;}":
+        raise ExtractError("janet_gcpressure: shape not recognised")
+    m = re.match(r"\{uint32_ti;if\(janet_vm\.gc_suspend\)return;depth=JANET_RECURSION_GUARD;janet_vm\.gc_mark_phase=1;"
+                 r"if\(janet_vm\.block_count\*(\d+)>janet_vm\.gc_interval\)\{janet_vm\.gc_interval=janet_vm\.block_count\*sizeof\(JanetGCObject\);\}"
+                 r"orig_rootcount=janet_vm\.root_count;", jc)
+    if not m:
+        raise ExtractError("janet_collect: suspend early-out / interval heuristic prologue not recognised")
+    info["intervalMul"] = int(m.group(1))
+    if not re.search(r"janet_sweep\(\);janet_vm\.next_collection=0;janet_free_all_scratch\(\);\}$", jc):
+        raise ExtractError("janet_collect: epilogue (next_collection reset, scratch release) not recognised")
+    if "janet_vm.next_collection+=size;" not in norm(csrc.func_body(gc, "janet_gcalloc")) or "janet_vm.block_count++;" not in norm(csrc.func_body(gc, "janet_gcalloc")):
+        raise ExtractError("janet_gcalloc: pressure / block_count accounting not recognised")
+    # struct JanetGCObject { int32_t flags; union { JanetGCObject *next; volatile JanetAtomicInt refcount; } data; }  (LP64 layout)
+    m = re.search(r"struct\s+JanetGCObject\s*\{\s*int32_t\s+flags\s*;\s*union\s*\{\s*JanetGCObject\s*\*\s*next\s*;\s*volatile\s+JanetAtomicInt\s+refcount\s*;[^}]*\}\s*data\s*;\s*\}", jh)
+    if not m:
+        raise ExtractError("struct JanetGCObject: layout not recognised")
+    info["gcObjectSize"] = 16      # 4 (flags) + 4 (padding) + 8 (pointer-sized union); the harness prints sizeof and the driver compares
+    vmc = csrc.strip_comments(csrc.read(tree, "src/core/vm.c"))
+    m = re.search(r"#define\s+maybe_collect\(\)\s*do\s*\{\\\s*if\s*\(\s*janet_vm\.next_collection\s*(>=|>)\s*janet_vm\.gc_interval\s*\)\s*janet_collect\(\);\s*\}\s*while\s*\(0\)", vmc)
+    if not m:
+        raise ExtractError("vm.c maybe_collect: decision not recognised")
+    info["maybeCollectGe"] = m.group(1) == ">="
+    m2 = re.search(r"#define\s+maybe_collect\(\)\s*do\s*\{\\\s*if\s*\(\(janet_verif_gc_safepoint\s*&&\s*janet_verif_gc_safepoint\(\)\)\s*\|\|\s*\\\s*janet_vm\.next_collection\s*(>=|>)\s*janet_vm\.gc_interval\s*\)\s*janet_collect\(\);", vmc)
+    if not m2 or (m2.group(1) == ">=") != info["maybeCollectGe"]:
+        raise ExtractError("vm.c maybe_collect (JANET_VERIF variant): decision differs from the plain one")
+    ji = norm(csrc.func_body(vmc, "janet_init"))
+    m = re.search(r"janet_vm\.next_collection=0;janet_vm\.gc_interval=(\w+);janet_vm\.block_count=0;janet_vm\.gc_mark_phase=0;", ji)
+    if not m or "janet_vm.roots=NULL;janet_vm.root_count=0;janet_vm.root_capacity=0;" not in ji:
+        raise ExtractError("janet_init: initial GC state not recognised")
+    info["initialGcInterval"] = csrc.cint(m.group(1))
+    # every reader/writer of gc_suspend outside gc.c is a save / restore pair (janet_try_init / janet_restore)
+    susp_sites = []
+    import os as _os
+    for rel in sorted(_os.listdir(_os.path.join(tree, "src/core"))):
+        if not rel.endswith((".c", ".h")):
+            continue
+        t = csrc.strip_comments(csrc.read(tree, "src/core/" + rel))
+        for mm in re.finditer(r"[^;{}]*\bgc_suspend\b[^;]*;", t):
+            susp_sites.append((rel, norm(mm.group(0))))
+    expect = [("gc.c", "if(janet_vm.gc_suspend)return;"), ("gc.c", "returnjanet_vm.gc_suspend++;"), ("gc.c", "janet_vm.gc_suspend=handle;"),
+              ("state.h", "intgc_suspend;"), ("vm.c", "state->gc_handle=janet_vm.gc_suspend;"), ("vm.c", "janet_vm.gc_suspend=state->gc_handle;")]
+    if sorted(susp_sites) != sorted(expect):
+        raise ExtractError("gc_suspend is read or written at an unexpected site: %s" % sorted(set(susp_sites) ^ set(expect)))
+    info["suspendSites"] = len(susp_sites)
     # gcalloc: which list
     ga = norm(csrc.func_body(gc, "janet_gcalloc"))
     m = re.search(r"if\(type<(JANET_MEMORY_\w+)\)\{mem->data\.next=janet_vm\.blocks;janet_vm\.blocks=mem;\}else\{mem->data\.next=janet_vm\.weak_blocks;janet_vm\.weak_blocks=mem;\}", ga)
@@ -217,5 +297,21 @@ def render(tree):
     out.append("def detachStatuses : List Nat := [" + ", ".join(str(v) for v in info["detachStatuses"]) + "]")
     out.append("/-- statuses janet_check_can_resume refuses (same evaluation) -/")
     out.append("def cannotResumeStatuses : List Nat := [" + ", ".join(str(v) for v in info["cannotResume"]) + "]\n")
+    out.append("/-- enum JanetType (janet.h) -/")
+    for k, v in info["jtypes"].items():
+        out.append("abbrev %s : Nat := %d" % ("ty" + k[len("JANET_"):].capitalize(), v))
+    out.append("\n/-- janet_gcroot: `newcap = rootGrowMul * newcount` when `newcount > root_capacity` -/")
+    out.append("abbrev rootGrowMul : Nat := %d" % info["rootGrowMul"])
+    out.append("/-- janet_gc_idequals: value types for which it answers 1 whatever the payload; every other type compares pointers -/")
+    out.append("abbrev idequalsAlwaysTypes : List Nat := [" + ", ".join(str(v) for v in info["idequalsAlways"]) + "]")
+    out.append("/-- janet_gcunrootall: does the loop look again at the slot it has just refilled with the last root? -/")
+    out.append("abbrev unrootallRescans : Bool := %s" % ("true" if info["unrootallRescans"] else "false"))
+    out.append("/-- janet_collect: `if (block_count * intervalMul > gc_interval) gc_interval = block_count * sizeof(JanetGCObject)` -/")
+    out.append("abbrev intervalMul : Nat := %d" % info["intervalMul"])
+    out.append("abbrev gcObjectSize : Nat := %d" % info["gcObjectSize"])
+    out.append("/-- maybe_collect (vm.c): collect when `next_collection >= gc_interval` (true) or `>` (false) -/")
+    out.append("abbrev maybeCollectGe : Bool := %s" % ("true" if info["maybeCollectGe"] else "false"))
+    out.append("/-- janet_init: initial gc_interval -/")
+    out.append("abbrev initialGcInterval : Nat := %d\n" % info["initialGcInterval"])
     out.append("end JanetModel.Gen.GC\n")
     return "\n".join(out), {"recursionGuard": info["recursionGuard"], "markSites": len(info["markSites"]), "memoryTypes": len(mem)}
